@@ -50,6 +50,10 @@ func bedClasses(f iogen.BedFile) []string {
 		l = append(l, "feature-of-another-type-written-as-bed")
 	}
 	nt := false
+	if f.FirstM != 0 && f.FirstM != f.M && len(f.Recs) > 0 {
+		l = append(l, "width-set-after-construction")
+		nt = true
+	}
 	if f.M < f.N {
 		l = append(l, "narrower-write")
 		nt = len(f.Recs) > 0
@@ -84,7 +88,7 @@ func TestBed(t *testing.T) {
 	vlib.Run(t, vlib.Prop[iogen.BedFile]{Name: "bed-roundtrip", Checks: 4000, Thorough: 300000,
 		Gen:   func(t *rapid.T) iogen.BedFile { return iogen.GenBedFile(t, 6) },
 		Check: checkBed, Classes: bedClasses,
-		MinFrac: map[string]float64{"narrower-write": 0.2, "full-bed12": 0.08, "negative-or-extreme-int": 0.3, "line>4096": 0.01}})
+		MinFrac: map[string]float64{"narrower-write": 0.2, "full-bed12": 0.08, "negative-or-extreme-int": 0.3, "line>4096": 0.01, "width-set-after-construction": 0.08}})
 }
 
 func checkGff(f iogen.GffFile) *vlib.Failure {
